@@ -1,10 +1,11 @@
 SPECIFICATION Spec
 CONSTANTS
- RSizes = {8, 16}
+ RSizes = {8}
  Rs = {1, 2}
  NMs <- NMq
  Ls = {0, 2}
  Os = {1, 3}
+ ModeLs = {0, 2}
  Extras = {0, 3}
 INVARIANT FixedWidth
 INVARIANT Lossless
